@@ -1376,3 +1376,138 @@ func TestValueEdges(t *testing.T) {
 	}
 	P.SetExhaustive()
 }
+
+// ---------- histories: one argument object feeding several tokens ----------
+
+type SharedCase struct {
+	Base   int   `json:"base"`   // number of keys in the shared *args.Args (every count: slice capacities step at 1, 2, 4, 8 ...)
+	Tokens int   `json:"tokens"` // number of invocations built from it
+	Extra  []int `json:"extra"`  // per token: number of further WithArgument options after WithArguments(base)
+	Later  int   `json:"later"`  // keys added to the base object itself after the tokens were built
+	Style  int   `json:"style"`  // 0 WithArguments(base); 1 args.New().Include(base) handed over; 2 hook-style: clone of the first token's Arguments()
+}
+
+// runShared: a caller keeps ONE argument object and derives several invocations from it, each with arguments of
+// its own on top. What each token stores is what it was given: building the next token, or extending the base
+// afterwards, does not reach back into tokens that already exist.
+func runShared(c *h.Ctx, sc SharedCase) {
+	base := args.New()
+	var baseKeys []string
+	for i := 0; i < sc.Base; i++ {
+		k := fmt.Sprintf("base%d", i)
+		if err := base.Add(k, int64(i)); err != nil {
+			c.Inconclusive("harness: %v", err)
+		}
+		baseKeys = append(baseKeys, k)
+	}
+	type made struct {
+		tk   *invocation.Token
+		want map[string]string
+		keys []string
+	}
+	var ms []made
+	for ti := 0; ti < sc.Tokens; ti++ {
+		var opts []invocation.Option
+		src := base
+		switch sc.Style % 3 {
+		case 1:
+			src = args.New()
+			src.Include(base)
+		case 2:
+			if len(ms) > 0 {
+				src = args.New()
+				src.Include(ms[0].tk.Arguments())
+				// only the base part: drop the first token's own extras by rebuilding from the base when they exist
+				if len(ms[0].keys) != len(baseKeys) {
+					src = args.New()
+					src.Include(base)
+				}
+			}
+		}
+		opts = append(opts, invocation.WithArguments(src), invocation.WithNonce(bytes.Repeat([]byte{byte(ti + 1)}, 12)))
+		want := map[string]string{}
+		ks := append([]string{}, baseKeys...)
+		for i, k := range baseKeys {
+			want[k] = fmt.Sprint(i)
+		}
+		nx := 1
+		if len(sc.Extra) > 0 {
+			nx = sc.Extra[ti%len(sc.Extra)]
+		}
+		for x := 0; x < nx; x++ {
+			k := fmt.Sprintf("own%d_%d", ti, x)
+			v := fmt.Sprintf("value-%d-%d", ti, x)
+			opts = append(opts, invocation.WithArgument(k, v))
+			want[k] = v
+			ks = append(ks, k)
+		}
+		tk, err := invocation.New(keys.Principal(0).DID, keys.Principal(1).DID, command.MustParse("/foo"), []cid.Cid{}, opts...)
+		if err != nil {
+			c.Fail("C10/shared-base/constructor-rejected", "invocation.New with WithArguments(base of %d keys) + %d own arguments: %v", sc.Base, nx, err)
+			return
+		}
+		ms = append(ms, made{tk, want, ks})
+	}
+	for i := 0; i < sc.Later; i++ {
+		_ = base.Add(fmt.Sprintf("later%d", i), "added after the tokens were built")
+	}
+	for ti, m := range ms {
+		got := map[string]string{}
+		var gotKeys []string
+		var perr any
+		if pn, pv, _ := h.Try(func() {
+			for k, v := range m.tk.Arguments().Iter() {
+				gotKeys = append(gotKeys, k)
+				switch {
+				case v == nil:
+					got[k] = "<nil>"
+				case v.Kind() == ipld.Kind_Int:
+					x, _ := v.AsInt()
+					got[k] = fmt.Sprint(x)
+				case v.Kind() == ipld.Kind_String:
+					x, _ := v.AsString()
+					got[k] = x
+				default:
+					got[k] = "<" + v.Kind().String() + ">"
+				}
+			}
+		}); pn {
+			perr = pv
+		}
+		if perr != nil || fmt.Sprint(got) != fmt.Sprint(m.want) || len(gotKeys) != len(m.keys) {
+			c.Fail("C10/shared-base/arguments-altered", "token %d of %d built from one shared base of %d keys (+%d added to the base later): its arguments are now %v (keys %v, panic %v); it was given %v", ti, len(ms), sc.Base, sc.Later, got, gotKeys, perr, m.want)
+			return
+		}
+		var serr error
+		if pn, pv, _ := h.Try(func() { _, _, serr = m.tk.ToSealed(keys.Principal(0).Priv) }); pn {
+			c.Fail("C10/shared-base/seal-panics", "token %d of %d built from one shared base cannot be sealed any more: panic %v", ti, len(ms), pv)
+			return
+		}
+		if serr != nil {
+			c.Fail("C10/shared-base/seal-fails", "token %d of %d built from one shared base cannot be sealed: %v", ti, len(ms), serr)
+			return
+		}
+		invariants(c, m.tk, false, "shared-base history")
+	}
+	c.P.Class(fmt.Sprintf("shared-base:keys=%d", sc.Base))
+	c.P.NonTrivial([]any{"shared", sc.Base, sc.Tokens, sc.Extra, sc.Later, sc.Style % 3}, map[string]any{"kind": "shared-base", "case": sc})
+}
+
+var sharedProp = h.Define(P, "sharedbase", func(t *rapid.T) SharedCase {
+	return SharedCase{Base: rapid.IntRange(0, 20).Draw(t, "base"), Tokens: rapid.IntRange(2, 4).Draw(t, "tokens"),
+		Extra: rapid.SliceOfN(rapid.IntRange(0, 3), 1, 4).Draw(t, "extra"), Later: rapid.IntRange(0, 2).Draw(t, "later"), Style: rapid.IntRange(0, 2).Draw(t, "style")}
+}, runShared)
+
+func TestSharedBase(t *testing.T) { sharedProp.Check(t) }
+
+// TestSharedBaseEnumerated: every base size 0..40 with 2 and 3 tokens, one own argument each.
+func TestSharedBaseEnumerated(t *testing.T) {
+	for n := 0; n <= 40; n++ {
+		for _, k := range []int{2, 3} {
+			for style := 0; style < 3; style++ {
+				sharedProp.One(t, SharedCase{Base: n, Tokens: k, Extra: []int{1}, Style: style})
+				sharedProp.One(t, SharedCase{Base: n, Tokens: k, Extra: []int{1, 2}, Later: 1, Style: style})
+			}
+		}
+	}
+}
